@@ -75,6 +75,9 @@ structure L where
   stringOpen : Rune := 0
   backquoteOpen : Rune := 0
   item : Option Item := none             -- `*l.itemp` once `scannedItem`
+  /-- `lexString` called `errorf("invalid UTF-8 rune")` and went on: `scannedItem` is set, the ERROR
+      item is delivered if the state function returns (to `lexEscape`) before `emit` overwrites it -/
+  pendErr : Bool := false
   deriving Repr, Inhabited
 
 def slice (s : Bytes) (a b : Nat) : Bytes := (s.drop a).take (b - a)
@@ -228,10 +231,12 @@ def step (l : L) : L :=
     else { emit (backup l2) .COMMENT with state := .statements }
   | .str =>
     let (r, l') := next l
-    if r == 92 then { l' with state := .escape }
-    else if r == runeError then { errorf l' "invalid UTF-8 rune" with item := none }   -- overwritten later: no effect
-    else if r == eof || r == 10 then { errorf l' "unterminated quoted string" with state := .done }
-    else if r == l.stringOpen then { emit l' .STRING with state := .statements }
+    if r == 92 then
+      (if l.pendErr then { errorf l' "invalid UTF-8 rune" with state := .escape, pendErr := false }
+       else { l' with state := .escape })
+    else if r == runeError && l'.width == 1 then { l' with pendErr := true }   -- an invalid byte: errorf without return, delivered only if lexString returns before emit
+    else if r == eof || r == 10 then { errorf l' "unterminated quoted string" with state := .done, pendErr := false }
+    else if r == l.stringOpen then { emit l' .STRING with state := .statements, pendErr := false }
     else l'
   | .multiline =>
     let (c, l') := next l
